@@ -91,3 +91,51 @@ Definition model_debug (alt : bool) (d : dinput) (v : value) : option string :=
       end
   | None => None
   end.
+
+(** ** Clone / clone_from (C07): values rendered like the harness's `show`, call events like support.rs's log *)
+From Educe.Proofs Require Import P_C07 P_C07c.
+
+Open Scope Z_scope.
+Definition user1 (path : toks) (args : list value) : value :=
+  match flat path, args with
+  | [m], [VAtom z] => if String.eqb m "m_clone" then VAtom (z + 50) else user0 path args
+  | _, _ => user0 path args
+  end.
+Close Scope Z_scope.
+Definition I1 : interp :=
+  {| i_ne := i_ne I0; i_eq := i_eq I0; i_cmp := i_cmp I0; i_partial_cmp := i_partial_cmp I0;
+     i_user := user1; i_size_of_self := 0%nat;
+     i_clone := fun v => v; i_clone_from := fun _ v => v; i_into := fun v => v; i_default := fun _ => VUnit |}.
+
+Definition show_atom (v : value) : string :=
+  match v with VAtom z => "A" ^^ decZ (atom_k z) ^^ ":" ^^ decZ (atom_v z) | _ => "?" end.
+Fixpoint join (sep : string) (l : list string) : string :=
+  match l with [] => "" | [x] => x | x :: r => x ^^ sep ^^ join sep r end.
+Definition show_value (v : value) : string :=
+  match v with
+  | VData vn fs => (match vn with Some n => n | None => "T" end) ^^ "(" ^^ join "," (map (fun kv => show_atom (snd kv)) fs) ^^ ")"
+  | _ => "?"
+  end.
+Definition clone_event_string (e : event) : string :=
+  match e with
+  | EvClone (VAtom z) => "clone A" ^^ decZ (atom_k z) ^^ " " ^^ decZ (atom_v z)
+  | EvUser _ [VAtom z] => "m_clone A" ^^ decZ (atom_k z) ^^ " " ^^ decZ (atom_v z)
+  | _ => "?"
+  end.
+
+Definition model_clone (d : dinput) (x : value) : option string :=
+  match item_with "clone" (expanded d) with
+  | Some it => match run_clone I1 it x with
+               | Some (v, tr) => Some (show_value v ^^ "|" ^^ join ";" (map clone_event_string tr))
+               | None => None
+               end
+  | None => None
+  end.
+Definition model_clone_from (d : dinput) (a b : value) : option string :=
+  match item_with "clone" (expanded d) with
+  | Some it => match run_clone_from (tie_clone I1 it) it a b with
+               | Some (a', _, _) => Some (show_value a')
+               | None => None
+               end
+  | None => None
+  end.
